@@ -116,5 +116,6 @@ fn main() {
             2
         }
     };
+    cleanup_scratch();
     std::process::exit(code);
 }
